@@ -242,11 +242,17 @@ fn history(jj_bin: &Path, tmp_root: &Path, h: u64, mut r: Rng, steps: usize, tra
         let vis = visible_commits(&loader, &cur_view);
         let pick = |r: &mut Rng| -> String { if vis.is_empty() { "@".to_string() } else { r.pick(&vis).hex() } };
         let tested: Option<Tested> = if n_heads_before == 1 && log.ops.len() > 3 && r.chance(9, 20) {
-            Some(match r.below(10) {
-                0..=3 => Tested::Undo,
-                4..=5 => Tested::Redo,
-                6..=7 => Tested::Restore { target: r.below(log.ops.len()), what: *r.pick(&["rt", "rt", "rt", "r", "t"]) },
-                _ => Tested::Revert { target: if r.chance(1, 2) { head_before } else { r.below(log.ops.len()) } },
+            // redo mostly where it can do something (right after an undo / a redo); revert mostly of the latest operation or
+            // of an operation that moved neither heads nor working copies (the merges the model covers)
+            let after_undo = !matches!(log.ops[head_before].desc, Desc::Regular);
+            let quiet: Vec<usize> = (1..log.ops.len()).filter(|i| log.ops[*i].parents.len() == 1 && {
+                let p = log.ops[*i].parents[0];
+                log.ops[*i].pv[0] == log.ops[p].pv[0] && log.ops[*i].pv[6] == log.ops[p].pv[6] && log.ops[*i].pv[0] == log.ops[head_before].pv[0] }).collect();
+            Some(match r.below(20) {
+                0..=7 => if after_undo && r.chance(1, 2) { Tested::Redo } else { Tested::Undo },
+                8..=9 => Tested::Redo,
+                10..=14 => Tested::Restore { target: r.below(log.ops.len()), what: *r.pick(&["rt", "rt", "rt", "r", "t"]) },
+                _ => Tested::Revert { target: match r.below(4) { 0 | 1 => head_before, 2 if !quiet.is_empty() => *r.pick(&quiet), _ => r.below(log.ops.len()) } },
             })
         } else { None };
 
@@ -257,7 +263,7 @@ fn history(jj_bin: &Path, tmp_root: &Path, h: u64, mut r: Rng, steps: usize, tra
         match tested {
             None => {
                 msg += 1;
-                let args: Vec<String> = match r.below(16) {
+                let args: Vec<String> = match r.below(17) {
                     0 | 1 => vec!["new".into(), pick(&mut r)],
                     2 => { let a = pick(&mut r); let b = pick(&mut r); if a != b { vec!["new".into(), a, b] } else { vec!["new".into()] } }
                     3 | 4 => vec!["describe".into(), "-r".into(), pick(&mut r), "-m".into(), format!("m{msg}")],
@@ -270,7 +276,7 @@ fn history(jj_bin: &Path, tmp_root: &Path, h: u64, mut r: Rng, steps: usize, tra
                     12 => vec!["edit".into(), pick(&mut r)],
                     13 => if r.chance(2, 3) { vec!["tag".into(), "set".into(), "--allow-move".into(), "-r".into(), pick(&mut r), format!("t{}", r.below(2))] } else { vec!["tag".into(), "delete".into(), format!("t{}", r.below(2))] },
                     14 => if r.chance(1, 2) { sv(&["git", "export"]) } else if n_ws < 1 { n_ws += 1; vec!["workspace".into(), "add".into(), format!("../ws{n_ws}")] } else { sv(&["status"]) },
-                    _ => if log.ops.len() > 3 && r.chance(1, 2) {
+                    _ => if n_heads_before > 1 { sv(&["status"]) } else if log.ops.len() > 3 && r.chance(3, 4) {
                             // a concurrent operation: run on an older operation; the next command reconciles
                             let at = log.ops[r.range(2, log.ops.len() - 1)].id.hex();
                             vec!["new".into(), "--at-op".into(), at]
@@ -371,7 +377,7 @@ fn history(jj_bin: &Path, tmp_root: &Path, h: u64, mut r: Rng, steps: usize, tra
                 let resp = if let Tested::Revert { target } = &t {
                     let modelled = log.ops[*target].parents.len() != 1 || {
                         let (c, b, o) = (log.ops[head].pv, log.ops[*target].pv, log.ops[log.ops[*target].parents[0]].pv);
-                        c == b || (b[0] == o[0] && b[6] == o[6] && (1..6).all(|k| c[k] == b[k] || b[k] == o[k]))
+                        c == b || (b[0] == o[0] && c[0] == b[0] && b[6] == o[6] && (1..6).all(|k| c[k] == b[k] || b[k] == o[k]))
                     };
                     if modelled { resp } else { "unmodelled".to_string() }
                 } else { resp };
@@ -460,8 +466,8 @@ pub fn run(cfg: &Cfg, out: &mut Out) {
     };
     testutils::hermetic_git();
     let tmp_root: PathBuf = if Path::new("/dev/shm").is_dir() { "/dev/shm".into() } else { std::env::temp_dir() };
-    let n_hist = cfg.n(24, 400);
-    let steps = 26;
+    let n_hist = cfg.n(24, 300);
+    let steps = 22;
     let threads: usize = std::env::var("RAYON_NUM_THREADS").ok().and_then(|s| s.parse().ok()).unwrap_or(8).clamp(1, 16);
     let next = std::sync::atomic::AtomicU64::new(0);
     let results: std::sync::Mutex<Vec<(u64, Vec<Event>)>> = std::sync::Mutex::new(vec![]);
